@@ -2,12 +2,14 @@ package checks
 
 import (
 	"bytes"
+	"context"
 	"encoding/json"
 	"fmt"
 	"io"
 	"os"
 	"path/filepath"
 	"strings"
+	"sync"
 	"sync/atomic"
 
 	"verif/mb"
@@ -65,7 +67,7 @@ type c01Case struct {
 	Path int    `json:"path,omitempty"` // index into c01Paths
 }
 
-var c01Paths = []string{"WriteTo", "WriteToFile(existing, longer file)", "NewReader", "Write", "WriteToTempFile", "second WriteTo of the same Msg", "WriteTo after a WriteTo into a sink that failed (at every eighth of the rendering)"}
+var c01Paths = []string{"WriteTo", "WriteToFile(existing, longer file)", "NewReader", "Write", "WriteToTempFile", "second WriteTo of the same Msg", "WriteTo after a WriteTo into a sink that failed (at every eighth of the rendering)", "WriteToSendmailWithContext(a program that stores its input)"}
 
 func c01Exec(r *vf.Run, spec mb.Msg, path int) []finding {
 	if path == 6 {
@@ -141,6 +143,19 @@ func c01ExecAt(r *vf.Run, spec mb.Msg, path, failAt int) []finding {
 		case 6:
 			_, _ = m.WriteTo(&faultSink{at: failAt})
 			_, werr = m.WriteTo(&buf)
+		case 7:
+			prog, perr := storingProgram()
+			if perr != nil {
+				werr = perr
+				return
+			}
+			outp := filepath.Join(filepath.Dir(prog), fmt.Sprintf("sendmail-%d.out", atomic.AddInt64(&c01FileSeq, 1)))
+			defer os.Remove(outp)
+			if werr = m.WriteToSendmailWithContext(context.Background(), prog, outp); werr == nil {
+				var b []byte
+				b, werr = os.ReadFile(outp)
+				buf.Write(b)
+			}
 		default:
 			_, werr = m.WriteTo(&buf)
 		}
@@ -169,6 +184,30 @@ func c01ExecAt(r *vf.Run, spec mb.Msg, path, failAt int) []finding {
 }
 
 var c01FileSeq int64
+
+var (
+	storingProgOnce sync.Once
+	storingProgPath string
+	storingProgErr  error
+)
+
+// storingProgram returns the path of a stand-in for sendmail that stores its standard input in the file named by its
+// last argument. It is written once per process, before the first child is started (a script that is still open for
+// writing while another goroutine forks cannot be executed: ETXTBSY).
+func storingProgram() (string, error) {
+	storingProgOnce.Do(func() {
+		dir := filepath.Join(os.Getenv("VERIF_WORK"), fmt.Sprintf("sendmail-%d", os.Getpid()))
+		if os.Getenv("VERIF_WORK") == "" {
+			dir = filepath.Join(os.TempDir(), fmt.Sprintf("verif-sendmail-%d", os.Getpid()))
+		}
+		if storingProgErr = os.MkdirAll(dir, 0o755); storingProgErr != nil {
+			return
+		}
+		storingProgPath = filepath.Join(dir, "store.sh")
+		storingProgErr = os.WriteFile(storingProgPath, []byte("#!/bin/sh\nfor a; do last=$a; done\nexec cat > \"$last\"\n"), 0o755)
+	})
+	return storingProgPath, storingProgErr
+}
 
 var c01FileNames = []string{"a.bin", "pic.png", "notes.txt", "with space.dat", "ünï.bin", "noext"}
 
@@ -424,7 +463,7 @@ func init() {
 	vf.Register(&vf.Check{
 		ID: "C01", Title: "rendered MIME carries exactly the content the caller supplied",
 		Run: func(r *vf.Run) {
-			r.SetRule("builder programs in canonical order: 0..3 body parts × 0..2 embeds × 0..2 attachments × message encoding {QP, base64, 8bit} × file encoding {default base64, 8bit, QP via File.Enc} × per-part encodings/descriptions/content types/fixed boundary, contents rotated through a 25-entry text alphabet and an 18-entry binary alphabet (wrap points 57/58/75/76/77, dots, '=', boundary-like lines, bare CR/LF, all 256 byte values, 3000-byte binary); plus every single byte value in every encoding; plus files supplied through AttachReader/EmbedReader (memory recycled by the caller afterwards; one scratch buffer refilled per file) and Attach/EmbedReadSeeker; bodies and files produced from text/html templates; part contents replaced through Part.SetContent; messages rendered while still incomplete and completed afterwards; each program is rendered through WriteTo, WriteToFile onto an existing longer file, NewReader, Write, WriteToTempFile, a second WriteTo of the same Msg, and a WriteTo that follows one into a sink failing at 1/8..7/8 of the rendering; each rendering is re-read by the harness' own MIME reader and compared leaf by leaf; distinct by program")
+			r.SetRule("builder programs in canonical order: 0..3 body parts × 0..2 embeds × 0..2 attachments × message encoding {QP, base64, 8bit} × file encoding {default base64, 8bit, QP via File.Enc} × per-part encodings/descriptions/content types/fixed boundary, contents rotated through a 25-entry text alphabet and an 18-entry binary alphabet (wrap points 57/58/75/76/77, dots, '=', boundary-like lines, bare CR/LF, all 256 byte values, 3000-byte binary); plus every single byte value in every encoding; plus files supplied through AttachReader/EmbedReader (memory recycled by the caller afterwards; one scratch buffer refilled per file) and Attach/EmbedReadSeeker; bodies and files produced from text/html templates; part contents replaced through Part.SetContent; messages rendered while still incomplete and completed afterwards; each program is rendered through WriteTo, WriteToFile onto an existing longer file, NewReader, Write, WriteToTempFile, a second WriteTo of the same Msg, a WriteTo that follows one into a sink failing at 1/8..7/8 of the rendering, and WriteToSendmailWithContext into a program that stores its input; each rendering is re-read by the harness' own MIME reader and compared leaf by leaf; distinct by program")
 			r.Assume("file media types without WithFileContentType are those of mime.TypeByExtension", "charset of text parts is the default UTF-8", "NUL bytes are not text")
 			specs := c01Specs(r.Thorough)
 			r.Extra("programs", len(specs))
@@ -485,6 +524,9 @@ func init() {
 					})
 				}
 			})
+			if storingProgPath != "" {
+				_ = os.RemoveAll(filepath.Dir(storingProgPath))
+			}
 			for _, n := range c01Paths {
 				r.Reached("reached/faithful/via=" + n)
 			}
